@@ -225,5 +225,14 @@ C08(i, o) ==
 C08_NonTrivial(i, o) == \E k \in Sh(i) : ~InSync(i, k)
 
 -----------------------------------------------------------------------------
-All(i, o) == [C01 |-> C01(i, o), C04 |-> C04(i, o), C05 |-> C05(i, o), C07 |-> C07(i, o), C08 |-> C08(i, o)]
+(* C03, cycle part: whenever all shards are in sync and an eligible unscraped target could not be   *)
+(* placed, the requested shard count exceeds the current one (up to the max-shard clamp)            *)
+C03(i, o) ==
+  IF (\A k \in Sh(i) : InSync(i, k)) /\ Unplaced(i, o) # {} /\ Len(o.scales) > 0
+       /\ o.scales[Len(o.scales)] <= NSh(i) /\ NSh(i) < i.opts.maxShard
+    THEN {[f |-> "no-scale-up-although-eligible-target-unplaced", n |-> o.scales[Len(o.scales)]]}
+    ELSE {}
+
+-----------------------------------------------------------------------------
+All(i, o) == [C01 |-> C01(i, o), C03 |-> C03(i, o), C04 |-> C04(i, o), C05 |-> C05(i, o), C07 |-> C07(i, o), C08 |-> C08(i, o)]
 =============================================================================
